@@ -166,6 +166,35 @@ def run_weights(case, seed):
                         continue
                 return dict(ok=False, sig="C11/weights/vs-geometric-definition/%s/%s" % (lang, func), nontrivial=nontriv,
                             msg="vertex values %s: sum over central-vertex choices of %s at omega=%g is %r, volume-fraction definition gives %r" % (case["values"], func, w, tot[lang][k], want))
+    # the module-level function (one float, a list, arrays in other memory layouts) agrees with the class on the same numbers
+    from phonopy.structure.tetrahedron_method import get_tetrahedra_integration_weight as gtw
+
+    tm, rga, ci = tms["C"]
+    g_ = np.random.default_rng(int(sum(v * 5 ** k for k, v in enumerate(np.rint(vals * 1000).astype(int) % 5))))
+    t = np.full((24, 4), BIG)
+    for r_ in range(24):
+        t[r_] = np.array(vals)[g_.permutation(4)] + 0.01 * r_
+    om = np.array(OMEGAS, float)
+    for func in ("I", "J"):
+        tm.set_tetrahedra_omegas(t)
+        tm.run(om, value=func)
+        want_w = np.array(tm.get_integration_weight(), float)
+        wide = np.zeros((24, 4, 3))
+        wide[:, :, 1] = t
+        wide[:, :, 0] = 123.0
+        om2 = np.repeat(om, 2)
+        om2[1::2] = -9.0
+        variants = {"contiguous": (om, t), "list": (om.tolist(), t.tolist()), "band-slice-of-(24,4,nband)": (om, wide[:, :, 1]),
+                    "fortran-order": (om, np.asfortranarray(t)), "every-other-frequency": (om2[::2], t)}
+        for nm, (o_, t_) in variants.items():
+            got_w = np.array(gtw(o_, t_, function=func))
+            n_eval += 1
+            if np.abs(got_w - want_w).max() > 1e-12:
+                return dict(ok=False, sig="C11/weights/function-vs-class/%s" % func, nontrivial=nontriv,
+                            msg="get_tetrahedra_integration_weight with the inputs as %s differs from TetrahedronMethod on the same numbers (by %.3g)" % (nm, np.abs(got_w - want_w).max()))
+        one = gtw(float(om[3]), t, function=func)
+        if abs(one - want_w[3]) > 1e-12:
+            return dict(ok=False, sig="C11/weights/function-vs-class/%s" % func, nontrivial=nontriv, msg="get_tetrahedra_integration_weight(float) differs from the class")
     if at_vertex_drop:
         return dict(ok=False, sig="C11/weights/J-drops-at-frequency-equal-to-vertex-value", nontrivial=nontriv, transitions=n_eval,
                     msg="vertex values %s: at a frequency exactly equal to a vertex value the cumulative weight falls below its value at lower frequencies (strict inequalities in the case split leave omega == v[i] without a branch)" % case["values"])
